@@ -66,13 +66,15 @@ def cells(tier):
     out.append(rt(['roItemInsert', 'roStoryReplace'], maxlen=1, T=2 * T,
                   example={'c0': '&amp;#13;&#10;', 'c1': '&quot; \u2028 \u00a0'}))
     # envelope invariants after every kind of merge (resolvable or not)
-    keep = lambda op, story_k, tk, sk, nk: (sk is None or len(sk) == 1 or sk == ['existing', 'existing']) and \
-        (nk is None or len(nk) == 1) and (tier == 'thorough' or story_k in (None, 'existing'))
+    keep = lambda op, story_k, tk, sk, nk: (sk is None or len(sk) <= 1 or sk == ['existing', 'existing']) and \
+        (nk is None or len(nk) <= 1) and (tier == 'thorough' or story_k in (None, 'existing'))
     out += make_cells(PID, 'envelope', tier, thin=keep)
     for carry in META_CARRIES[:8]:
         out.append(mcell(PID, 'envelope', carry, T=T))
     for N, k in ((2, 1), (2, 2), (3, 0)):
         out.append(rcell(PID, N, k, T=T))
+    out.append(rcell(PID, 2, 2, T=T, repeat_id=True))
+    out.append(rcell(PID, 1, 1, T=T, repeat_id=True))
     out.append(icell(PID, 'roDelete', N=2, T=T))
     out.append(icell(PID, 'roReadyToAir', N=2, T=T))
     for tw in ('same', 'blank', 'free'):
